@@ -35,6 +35,8 @@ Protocol (one case = one schema + one Chaperone):
                                          addressed instance, for the CURRENT schema class
   misfold <fn>|-                         assign the public attribute on_misfold (fn: ok rv r0 falsy; - = None)
   newh <ctor> <cofn|-> <mfn|->           Chaperone(strategies=…, co_chaperones={S: fn}, on_misfold=cb)
+  inner fold|foldx <hex> none            inserted by run_impl after a fold during which a RE-ENTRANT user callback (`re`) folded
+                                         INNER_TEXT on the very instance it was running for: the inner call's own report
   [env H <fn> <text> ok <text>|raise <Class>]   what a co-chaperone does on a text (evaluated by the harness)
   [env G <fn> <truthy> ok|raise <Class>]        truthiness of an on_misfold callback and what it does
   loop                                   ChaperoneLoop(generator, chaperone=<addressed instance>, schema=<current class>) is
@@ -112,10 +114,13 @@ CO_FNS = {
     "rv": _raiser(ValueError("co-chaperone")),
     "rk": _raiser(KeyError("co-chaperone")),
     "rs": _raise_without_brace,
+    "re": lambda t: t,           # RE-ENTRANT: calls fold_enhanced on the same instance (run_impl), returns the text as it is
 }
 # on_misfold callbacks: what they do when called (None = return) and whether the object is truthy
 MISFOLD_FNS = {"ok": (None, True), "rv": (ValueError("on_misfold"), True), "r0": (RuntimeError(), True),
-               "falsy": (None, False)}
+               "falsy": (None, False), "re": (None, True)}     # re: calls fold on the same instance (run_impl), returns
+# the text a re-entrant callback folds on the instance it is running for (no JSON in it: the inner fold misfolds)
+INNER_TEXT = "re-entrant call: nope"
 
 # strings with typographic punctuation / invisible characters / compatibility forms: legal inside JSON strings, and
 # exactly what a "tidying" preprocessor, a normaliser or a too-clever repair would rewrite
@@ -790,7 +795,7 @@ class C11(Prop):
     # --- implementation -------------------------------------------------------------------------------------
     def run_impl(self, case):
         m = self.m
-        lines = [l for l in case["lines"] if not l.startswith("env ")]
+        lines = [l for l in case["lines"] if not l.startswith("env ") and not l.startswith("inner ")]
         out_lines, obs, extra = [], [], []
         REC.reset_case()
         S = self.factory.get("a:int")
@@ -821,8 +826,36 @@ class C11(Prop):
         h_done = set()
         wrappers = []            # the library's own wrapper objects that were handed an instance stay alive
 
-        def make_co(name):
+        reent = {"depth": 0, "off": False, "inner": []}
+        cur_S = [S]              # the schema class in force (on_misfold is per instance, not per class)
+
+        def reenter(inst, S_, op):
+            """a user callback calls the validator it is running for: the inner call is recorded as a fold of its own"""
+            S_ = S_ if S_ is not None else cur_S[0]
+            if reent["depth"] > 0 or reent["off"] or inst is None:
+                return
+            reent["depth"] += 1
+            saved, saved_calls = list(hooklog), REC.calls
+            del hooklog[:]
+            REC.calls = []
+            r_ = e_ = None
+            try:
+                try:
+                    r_ = (inst.fold if op == "fold" else inst.fold_enhanced)(INNER_TEXT, S_)
+                except Exception as e:
+                    e_ = e
+                reent["inner"].append({"op": op, "result": r_, "error": e_, "hooklog": list(hooklog), "calls": list(REC.calls)})
+            finally:
+                hooklog[:] = saved
+                REC.calls = saved_calls
+                reent["depth"] -= 1
+
+        def make_co(name, cell=None):
+            cell = cell if cell is not None else [None, None]      # [instance, schema class] the callback was registered for
+
             def co(text, _name=name):
+                if _name == "re":
+                    reenter(cell[0], cell[1], "foldx")
                 try:
                     out = CO_FNS[_name](text)
                 except Exception as e:
@@ -832,8 +865,9 @@ class C11(Prop):
                 return out
             return co
 
-        def make_mf(name):
+        def make_mf(name, cell=None):
             exc, truthy = MISFOLD_FNS[name]
+            cell = cell if cell is not None else [None, None]
 
             class Callback:
                 def __bool__(self):
@@ -848,6 +882,8 @@ class C11(Prop):
                     except Exception as e:       # not even a report
                         entry["broken"] = e
                     hooklog.append(entry)
+                    if name == "re":
+                        reenter(cell[0], cell[1], "fold")
                     if exc is not None:
                         raise exc
             return Callback()
@@ -894,6 +930,7 @@ class C11(Prop):
             if t[0] == "schema" and len(t) == 2:
                 spec = t[1]
                 S = self.factory.get(spec)
+                cur_S[0] = S
                 REC.reset_tables()
                 h_done.clear()
                 emit(line, "ok")
@@ -988,9 +1025,11 @@ class C11(Prop):
                     emit(line, f"raise:{type(e).__name__}")
             elif t[0] == "newh" and len(t) == 4 and (t[2] == "-" or t[2] in CO_FNS) and (t[3] == "-" or t[3] in MISFOLD_FNS):
                 try:
+                    cell, cellm = [None, S], [None, None]      # on_misfold is per instance: it folds for the class in force
                     ch = m.Chaperone(strategies=self.strategies_of(t[1]),
-                                     co_chaperones=({S: make_co(t[2])} if t[2] != "-" else None),
-                                     on_misfold=(make_mf(t[3]) if t[3] != "-" else None), silent=True)
+                                     co_chaperones=({S: make_co(t[2], cell)} if t[2] != "-" else None),
+                                     on_misfold=(make_mf(t[3], cellm) if t[3] != "-" else None), silent=True)
+                    cell[0] = cellm[0] = ch
                     chs.append(ch)
                     owns.append(list(t[1]) if t[1] not in ("none", "-") else list("selr"))
                     ctor = "".join(owns[-1])
@@ -1030,10 +1069,10 @@ class C11(Prop):
                 how, _, fn = t[1].partition(":")
                 try:
                     if how == "reg" and fn in CO_FNS:
-                        c.register_co_chaperone(S, make_co(fn))
+                        c.register_co_chaperone(S, make_co(fn, [c, S]))
                         co_own[i][spec] = fn
                     elif how == "set" and fn in CO_FNS:
-                        c.co_chaperones[S] = make_co(fn)
+                        c.co_chaperones[S] = make_co(fn, [c, S])
                         co_own[i][spec] = fn
                     elif how == "del" and not fn:
                         c.co_chaperones.pop(S, None)
@@ -1048,7 +1087,7 @@ class C11(Prop):
                 c = current()
                 i = chs.index(c)
                 try:
-                    c.on_misfold = make_mf(t[1]) if t[1] != "-" else None
+                    c.on_misfold = make_mf(t[1], [c, None]) if t[1] != "-" else None
                     mf_own[i] = t[1] if t[1] != "-" else None
                     emit(line, "ok")
                 except Exception as e:
@@ -1177,7 +1216,21 @@ class C11(Prop):
                 if mfn is not None:
                     exc, truthy = MISFOLD_FNS[mfn]
                     REC.pending.append(f"env G {mfn} {int(truthy)} " + ("ok" if exc is None else "raise " + type(exc).__name__))
+                if "re" in (cofn, mfn):
+                    # a callback that calls the validator it is running for: the inner fold (of INNER_TEXT, instance's own
+                    # strategies) is reported as a line of its own right after this one (`inner fold|foldx …`)
+                    REC.prepare_text(ch, INNER_TEXT)
+                    hk = ("H", cofn, INNER_TEXT, id(S))
+                    if cofn is not None and hk not in h_done:
+                        h_done.add(hk)
+                        try:
+                            REC.pending.append(f"env H {cofn} {REC.text(INNER_TEXT)} ok {REC.text(CO_FNS[cofn](INNER_TEXT))}")
+                            if CO_FNS[cofn](INNER_TEXT) != INNER_TEXT:
+                                REC.prepare_text(ch, CO_FNS[cofn](INNER_TEXT))
+                        except Exception as e:
+                            REC.pending.append(f"env H {cofn} {REC.text(INNER_TEXT)} raise {type(e).__name__}")
                 del hooklog[:]
+                del reent["inner"][:]
                 REC.active = True
                 err = None
                 r = None
@@ -1202,26 +1255,48 @@ class C11(Prop):
                                                             ("tables", "tune", "schema", "newsub", "new", "newh", "cochap", "misfold", "list", "newl", "lmut",
                                                              "assign", "assignl")),
                         "used_by_stats": used, "text": text, "hooklog": list(hooklog), "cofn": cofn, "mfn": mfn, "ambiguous": ambiguous}
-                if err is not None:
-                    emit(line, f"raise:{type(err).__name__} {calls}", info)
-                    continue
-                try:
-                    sid = "none" if r.structure is None else str(REC.sid(r.structure))
-                    head = [show_bool(r.valid is True), sid, show_bool(r.error_trace is not None),
-                            show_bool(r.raw_peptide_chain == raw)]
-                except Exception as e:      # not even a result object
-                    info["error"] = e
-                    emit(line, f"raise:{type(e).__name__} {calls}", info)
-                    continue
-                if t[0] == "foldx":
-                    su = "none" if r.strategy_used is None else self.strat_letter.get(r.strategy_used, "?")
-                    conf = self.show_conf(r.confidence)
-                    notes = self.notes_of(r)
-                    atts = [self.strat_letter.get(a.strategy, "?") + show_bool(a.success) for a in r.attempts]
-                    head += [su, conf, "[" + ",".join(notes) + "]", "[" + ",".join(atts) + "]"]
-                if t[0] == "fold":
+                def emit_fold(line_, op_, raw_, r_, err_, calls_, info_):
+                    if err_ is not None:
+                        emit(line_, f"raise:{type(err_).__name__} {calls_}", info_)
+                        return
+                    try:
+                        sid = "none" if r_.structure is None else str(REC.sid(r_.structure))
+                        head = [show_bool(r_.valid is True), sid, show_bool(r_.error_trace is not None),
+                                show_bool(r_.raw_peptide_chain == raw_)]
+                    except Exception as e:      # not even a result object
+                        info_["error"] = e
+                        emit(line_, f"raise:{type(e).__name__} {calls_}", info_)
+                        return
+                    if op_ == "foldx":
+                        su = "none" if r_.strategy_used is None else self.strat_letter.get(r_.strategy_used, "?")
+                        conf = self.show_conf(r_.confidence)
+                        notes = self.notes_of(r_)
+                        atts = [self.strat_letter.get(a.strategy, "?") + show_bool(a.success) for a in r_.attempts]
+                        head += [su, conf, "[" + ",".join(notes) + "]", "[" + ",".join(atts) + "]"]
+                    emit(line_, " ".join(head + [calls_]), info_)
+                emit_fold(line, t[0], raw, r, err, calls, info)
+                if t[0] == "fold" and err is None and info["error"] is None:
                     last_report[0] = r
-                emit(line, " ".join(head + [calls]), info)
+                # the folds user callbacks made on this very instance while the fold above was running: each is a fold
+                # like any other (every counter update of the outer call commutes with it, and a fold's report does not
+                # depend on the counters), reported and judged on its own line
+                outer_hooklog = list(hooklog)
+                inner_text = INNER_TEXT
+                if cofn is not None:
+                    try:
+                        inner_text = CO_FNS[cofn](INNER_TEXT)
+                    except Exception:
+                        inner_text = None
+                for inner in list(reent["inner"]):
+                    hooklog[:] = inner["hooklog"]
+                    icalls = show_hooks(INNER_TEXT) + " calls=[" + ",".join(str(i) for i in inner["calls"]) + "]"
+                    iinfo = dict(info, op=inner["op"], raw=INNER_TEXT, strat="none", result=inner["result"], error=inner["error"],
+                                 used_by_stats=[], text=inner_text,
+                                 hooklog=list(hooklog), reentrant=True)
+                    emit_fold(f"inner {inner['op']} {hexs(INNER_TEXT)} none", inner["op"], INNER_TEXT, inner["result"],
+                              inner["error"], icalls, iinfo)
+                hooklog[:] = outer_hooklog
+                del reent["inner"][:]
             elif t[0] == "heal" and len(t) == 4:
                 outs = [unhexs(h) for h in t[3].split(",")]
                 ch = current()
@@ -1258,6 +1333,7 @@ class C11(Prop):
                     exc, truthy = MISFOLD_FNS[mfn]
                     REC.pending.append(f"env G {mfn} {int(truthy)} " + ("ok" if exc is None else "raise " + type(exc).__name__))
                 del hooklog[:]
+                reent["off"] = True          # re-entrant callbacks behave as plain ones during a healing run
                 REC.active = True
                 err = None
                 r = None
@@ -1269,6 +1345,7 @@ class C11(Prop):
                     err = e
                 finally:
                     REC.active = False
+                    reent["off"] = False
                 for el in REC.take_pending():
                     emit(el, "ok")
                 calls = show_hooks(lambda t_, _o=outs: t_ in _o) + " calls=[" + ",".join(str(i) for i in REC.calls) + "]"
@@ -1814,12 +1891,12 @@ class C11(Prop):
 
     @staticmethod
     def rand_co(rng, allow_none=True):
-        names = ["id", "fence", "quotes", "brace", "brace", "redact", "redact", "upper", "empty", "rv", "rk", "rs", "rs"]
+        names = ["id", "fence", "quotes", "brace", "brace", "redact", "redact", "upper", "empty", "rv", "rk", "rs", "rs", "re", "re"]
         return rng.choice(names + (["-"] * 5 if allow_none else []))
 
     @staticmethod
     def rand_mf(rng):
-        return rng.choice(["ok", "ok", "ok", "rv", "r0", "falsy", "-", "-"])
+        return rng.choice(["ok", "ok", "ok", "rv", "r0", "falsy", "re", "re", "-", "-"])
 
     DECAYS = ["1/10", "1/10", "0", "1/4", "1/2", "1", "2", "1/20", "3/10", "1/8"]
 
@@ -1968,6 +2045,15 @@ class C11(Prop):
                      "cochap del", "misfold -", f"foldx {hexs(clean)} none", f"fold {hexs(bad)} none",
                      f"heal 1 1/10 {hexs(clean)}", f"cochap set:{co}", f"fold {hexs(prose3)} s", f"foldx {hexs(prose3)} s", "stats"]
                 hook_cases.append({"lines": L, "note": "callbacks registered on one of several instances, per schema class; unregistered again"})
+        for co, mf in [("re", "-"), ("-", "re"), ("re", "re"), ("re", "ok"), ("redact", "re"), ("rs", "re"), ("re", "rv")]:
+            for st in ["none", "le"]:
+                # RE-ENTRANT callbacks: the co-chaperone calls fold_enhanced, on_misfold calls fold, on the instance they
+                # are running for; then the same texts again (a repeat after overlapping calls)
+                L = [f"schema {spec}", f"newh none {co} {mf}"]
+                for raw in hraws + hraws[:2]:
+                    L += [f"fold {hexs(raw)} {st}", f"foldx {hexs(raw)} {st}"]
+                L += ["stats", "cochap del", "misfold -", f"foldx {hexs(hraws[0])} {st}", f"fold {hexs(hraws[3])} {st}", "stats"]
+                hook_cases.append({"lines": L, "note": "re-entrant user callbacks: a fold inside a fold on one instance, then repeats"})
         for co in ["-", "brace", "redact", "rs", "rv", "quotes"]:
             for mf in ["-", "ok", "rv"] + (["falsy", "r0"] if tier != "quick" else []):
                 if co == "-" and mf == "-":
